@@ -378,9 +378,9 @@ def run(ck, m):
               stmt=f"{fn_.name}: no relative backward move")
     ups = [c for c in writes if any(isinstance(x, ast.Call) and (call_name(x) or "") == "cursor_up" for a_ in c.args for x in ast.walk(trace(an, a_)))]
     for c in ups:
-        t_ = trace(an, c.args[0])
-        first = t_.values[0] if isinstance(t_, ast.JoinedStr) and t_.values else t_
-        ck.ob("R2", enclosing_stmt(c), isinstance(first, ast.Constant) and isinstance(first.value, str) and first.value.startswith("\r"),
+        from tiv import emit as _emit
+        first = next(iter(_emit.atoms(_emit.Builder(an).expr(c.args[0]))), None)
+        ck.ob("R2", enclosing_stmt(c), isinstance(first, _emit.Lit) and first.text.startswith("\r"),
               f"`{short(c, 50)}` moves up without first returning to column 0 with CR", stmt="_animate_: vertical return starts with CR")
 
 
